@@ -344,8 +344,44 @@ pub fn apply(b: Builder, call: &Value) -> Result<Builder, String> {
             _ => b.rustfmt_configuration_file(Some(s(call, 1)?.into())),
         },
         "override_abi" => b.override_abi(abi_of(&s(call, 1)?)?, s(call, 2)?),
+        // the documented library route of --with-attribute-custom* / --with-derive-custom*:
+        // a ParseCallbacks object; ["cb_attribute"|"cb_derive", kind|null, regex, [items]]
+        "cb_attribute" | "cb_derive" => {
+            let kind = match call.get(1).and_then(|x| x.as_str()) {
+                None => None,
+                Some("struct") => Some(bindgen::callbacks::TypeKind::Struct),
+                Some("enum") => Some(bindgen::callbacks::TypeKind::Enum),
+                Some("union") => Some(bindgen::callbacks::TypeKind::Union),
+                Some(o) => return Err(format!("unknown type kind {o}")),
+            };
+            let re = regex::Regex::new(&format!("^({})$", s(call, 2)?)).map_err(|e| e.to_string())?;
+            b.parse_callbacks(Box::new(CustomCb { attrs: m == "cb_attribute", items: strs(call, 3)?, kind, re }))
+        }
         o => return Err(format!("no row for method {o}")),
     })
+}
+
+#[derive(Debug)]
+struct CustomCb {
+    attrs: bool,
+    items: Vec<String>,
+    kind: Option<bindgen::callbacks::TypeKind>,
+    re: regex::Regex,
+}
+
+impl bindgen::callbacks::ParseCallbacks for CustomCb {
+    fn add_derives(&self, info: &bindgen::callbacks::DeriveInfo<'_>) -> Vec<String> {
+        if !self.attrs && self.kind.map_or(true, |k| k == info.kind) && self.re.is_match(info.name) {
+            return self.items.clone();
+        }
+        vec![]
+    }
+    fn add_attributes(&self, info: &bindgen::callbacks::AttributeInfo<'_>) -> Vec<String> {
+        if self.attrs && self.kind.map_or(true, |k| k == info.kind) && self.re.is_match(info.name) {
+            return self.items.clone();
+        }
+        vec![]
+    }
 }
 
 /// every method name `apply` knows (for the cross-check against the scan of `options!`)
